@@ -113,7 +113,7 @@ structure Quiet (w : WSt) : Prop where
 
 theorem timedOut_leaks (cfg : Cfg) (hg : cfg.good = true) (hw : cfg.watchdog = true) (w : WSt) (hq : Quiet w) :
     Quiet (runW cfg w timedOut) ∧ (runW cfg w timedOut).orphans = w.orphans + 1 := by
-  have hc : cfg.closesConn = true := by simp [Cfg.good] at hg; exact hg.1.1.1.1
+  have hc : cfg.closesConn = true := by simp [Cfg.good] at hg; exact hg.1.1.1.1.1
   obtain ⟨st, armed, orphans⟩ := w
   obtain ⟨h1, h2, h3, h4, h5, h6, h7⟩ := hq
   simp only at h1 h2 h3 h4 h5 h6 h7
@@ -121,7 +121,7 @@ theorem timedOut_leaks (cfg : Cfg) (hg : cfg.good = true) (hw : cfg.watchdog = t
   simp only [runW, timedOut, List.foldl_cons, List.foldl_nil, stepW, step, h1, h2, h3, h4, h5, h6, hc, hw,
     Option.isSome_none, Bool.or_self, Bool.false_eq_true, if_false, Nat.lt_irrefl, gt_iff_lt, drain, takeMsg,
     List.find?_nil, if_true, List.filter_cons, List.filter_nil, bne_self_eq_false, List.contains_nil,
-    Bool.not_false, Bool.and_self]
+    Bool.not_false, Bool.and_self, Bool.and_false]
   refine ⟨⟨?_, ?_, ?_, ?_, ?_, ?_, ?_⟩, ?_⟩ <;> first | rfl | trivial
 
 /-- with the watchdog enabled, n requests that time out leave n watchdog tasks behind: no bound -/
